@@ -1,15 +1,16 @@
 ------------------------------ MODULE CLILaws ------------------------------
 (***************************************************************************)
 (* MC mode for part (a) of CLI.tla.  A state is an argument vector; Next   *)
-(* appends one token, so all vectors of length <= MaxLen over the alphabet *)
-(* are visited and the invariants are evaluated on each by all workers.    *)
+(* appends one token, so all vectors of length <= MaxLenFull over the full *)
+(* alphabet and of length <= MaxLen over the reduced alphabet are visited  *)
+(* and the invariants are evaluated on each by all workers.                *)
 (*   Alphabet = "raw":    tokens are symbol sequences, including shapes    *)
 (*                        outside the documented grammar; invariant Laws   *)
 (*   Alphabet = "tagged": tagged tokens of documented shape; invariant     *)
 (*                        Refines (transcription implements the grammar)   *)
 (***************************************************************************)
 EXTENDS CLI
-CONSTANTS MaxLen, Alphabet, Reduced
+CONSTANTS MaxLen, MaxLenFull, Alphabet
 VARIABLE vec
 
 S(str) == <<str>>
@@ -32,7 +33,6 @@ RawTokensReduced == {
     <<"-", "-", "arg">>,
     <<"-", "-">>, <<"-", "X">>, <<"-", "5">>,
     S("."), S("json"), <<"k", "=", "v">> }
-RawTokens == IF Reduced THEN RawTokensReduced ELSE RawTokensFull
 
 \* tagged tokens of documented shape
 FlagS(names) == LET t == Tok("flag", names, "short", "", FALSE, <<>>, "", <<>>) IN [t EXCEPT !.sym = RenderFlag(t)]
@@ -67,11 +67,14 @@ TaggedTokensReduced == {
     Pos(S(".")), Pos(<<"-", "5">>), Pos(<<"-", "n">>),
     DD,
     Bad("unknown", <<"-", "n", "X">>), Bad("boolval", <<"-", "n", "=", "1">>) }
-TaggedTokens == IF Reduced THEN TaggedTokensReduced ELSE TaggedTokensFull
 
-Tokens == IF Alphabet = "raw" THEN RawTokens ELSE TaggedTokens
+Red == IF Alphabet = "raw" THEN RawTokensReduced ELSE TaggedTokensReduced
+Full == (IF Alphabet = "raw" THEN RawTokensFull ELSE TaggedTokensFull) \cup Red
 Init == vec = <<>>
-Next == Len(vec) < MaxLen /\ \E t \in Tokens : vec' = Append(vec, t)
+Next == \E t \in Full :
+            /\ \/ Len(vec) < MaxLenFull
+               \/ Len(vec) < MaxLen /\ t \in Red /\ \A i \in 1 .. Len(vec) : vec[i] \in Red
+            /\ vec' = Append(vec, t)
 Spec == Init /\ [][Next]_vec
 
 \* ---- invariants over raw vectors --------------------------------------------
@@ -88,7 +91,7 @@ TagsOK == \A i \in 1 .. Len(vec) : WellTaggedTok(vec[i])
 Refines == RefinesIntent(vec)
 RefinesOrKnownSpelling == RefinesIntent(vec) \/ UsesJqSpelling(vec)
 \* anti-vacuity probes, expected VIOLATED
-NeverOkIntent == Intent(vec).st # "ok" \/ Len(vec) < MaxLen
-NeverArgErr == Intent(vec).st # "argerr" \/ Len(vec) < MaxLen
+NeverOkIntent == Intent(vec).st # "ok" \/ Len(vec) < MaxLenFull
+NeverArgErr == Intent(vec).st # "argerr" \/ Len(vec) < MaxLenFull
 NeverJqSpellingHole == RefinesIntent(vec)
 =============================================================================
